@@ -2004,6 +2004,17 @@ BTree_setdefault(BTree *self, PyObject *args)
     if (! PyArg_UnpackTuple(args, "setdefault", 2, 2, &key, &failobj))
         return NULL;
 
+    /* An unusable default is an error whether or not the key is present
+     * (the Python implementation validates it first, too). */
+    {
+        VALUE_TYPE checked;
+        int copied = 1;
+        COPY_VALUE_FROM_ARG(checked, failobj, copied);
+        UNLESS (copied)
+            return NULL;
+        (void)checked;
+    }
+
     value = _BTree_get(self, key, 0, _BGET_ALLOW_TYPE_ERROR);
     if (value != NULL)
         return value;
